@@ -384,6 +384,16 @@ func histCases(prop, tier string, seed int64) []core.Case {
 			cases = append(cases, core.Case{ID: fmt.Sprintf("invalidated-under-a-request/dotu=%v", dotu), Run: func(ctx *core.Ctx) core.Result {
 				return runInvalidatedUnder("C04", dotu)
 			}})
+			rounds := 1500
+			if tier == "thorough" {
+				rounds = 20000
+			}
+			cases = append(cases, core.Case{ID: fmt.Sprintf("queued-at-disconnect/maxpend=%d", map[bool]int{false: 0, true: 4}[dotu]), Run: func(ctx *core.Ctx) core.Result {
+				return c11QueuedAtDisconnect(ctx, "C04", map[bool]int{false: 0, true: 4}[dotu])
+			}})
+			cases = append(cases, core.Case{ID: fmt.Sprintf("same-number-race/dotu=%v", dotu), Run: func(ctx *core.Ctx) core.Result {
+				return runSameNumberRace(ctx, dotu, rounds)
+			}})
 		}
 	}
 	if prop == "C05" {
@@ -394,6 +404,9 @@ func histCases(prop, tier string, seed int64) []core.Case {
 			}})
 			cases = append(cases, core.Case{ID: fmt.Sprintf("named-users/dotu=%v", dotu), Run: func(ctx *core.Ctx) core.Result {
 				return runNamedUsers(dotu)
+			}})
+			cases = append(cases, core.Case{ID: fmt.Sprintf("refused-version/dotu=%v", dotu), Run: func(ctx *core.Ctx) core.Result {
+				return runRefusedVersion(dotu)
 			}})
 		}
 	}
@@ -580,6 +593,155 @@ func runMalformedWrites(dotu bool) core.Result {
 		h.Fatal = true // the connection may be gone: skip the destroy accounting that needs replies
 		h.Finish()
 	}
+	return res
+}
+
+// runSameNumberRace: eight pipelined requests, all outstanding at once, each binding the same unused fid number
+// (Tattach, and Twalk to a new fid). Whatever the schedule, the number is bound to one object: exactly one request
+// succeeds, the implementation sees exactly one binding, and over the connection every object shown is reported
+// destroyed exactly once.
+func runSameNumberRace(ctx *core.Ctx, dotu bool, rounds int) core.Result {
+	var res core.Result
+	s := NewSess(Config{Dotu: dotu, Msize: 8192})
+	c := s.Dial()
+	ver := "9P2000"
+	if dotu {
+		ver = "9P2000.u"
+	}
+	if r, err := c.Version(8192, ver, W); err != nil || r.Msg == nil {
+		res.Inconclusive = "c04 race: version failed"
+		return res
+	}
+	if a, err := c.Rpc(&wire.Msg{Type: wire.Tattach, Tag: 1, Fid: 0, Afid: wire.NOFID, Uname: "root", Nuname: 0}, W); err != nil || a.Msg == nil || a.Msg.Type != wire.Rattach {
+		res.Inconclusive = "c04 race: attach failed"
+		return res
+	}
+	fail := func(sig, msg string, round int) {
+		res.Violate("C04;same-number-race;"+sig, msg, map[string]interface{}{"dotu": dotu, "round": round})
+	}
+	const k = 8
+	multi := 0
+	for round := 0; round < rounds && len(res.Violations) < 3; round++ {
+		if round%200 == 0 {
+			ctx.Beat()
+		}
+		fidno := uint32(100 + round%7)
+		var raw []byte
+		kinds := ""
+		for i := 0; i < k; i++ {
+			m := &wire.Msg{Type: wire.Tattach, Tag: uint16(10 + i), Fid: fidno, Afid: wire.NOFID, Uname: "root", Nuname: 0}
+			if (round>>uint(i%4))&1 == 1 && round%3 != 0 {
+				m = &wire.Msg{Type: wire.Twalk, Tag: uint16(10 + i), Fid: 0, Newfid: fidno}
+			}
+			kinds += wire.TypeName(m.Type)[1:2]
+			raw = append(raw, wire.Encode(m, dotu)...)
+		}
+		seq0 := s.Log.Seq()
+		_ = c.SendRaw(raw)
+		ok := 0
+		for i := 0; i < k; i++ {
+			r, err := c.WaitTag(uint16(10+i), W)
+			if err != nil || r.Msg == nil {
+				res.Inconclusive = fmt.Sprintf("c04 race: no reply in round %d", round)
+				return res
+			}
+			if r.Msg.Type == wire.Rattach || r.Msg.Type == wire.Rwalk {
+				ok++
+			}
+		}
+		res.Evals++
+		bound := 0
+		for _, ev := range s.Log.Snapshot(seq0) {
+			if ev.Kind == "op" && (ev.Op == "Attach" || ev.Op == "Walk") {
+				bound++
+			}
+		}
+		if ok != 1 {
+			fail(fmt.Sprintf("winners=%d", min(ok, 2)), fmt.Sprintf("%d of %d simultaneous requests binding fid %d succeeded (kinds %s)", ok, k, fidno, kinds), round)
+		}
+		if bound != 1 {
+			fail(fmt.Sprintf("forwarded=%d", min(bound, 2)), fmt.Sprintf("%d of %d simultaneous requests binding fid %d reached the implementation (kinds %s)", bound, k, fidno, kinds), round)
+		}
+		if bound > 1 || ok > 1 {
+			multi++
+		}
+		if r, err := c.Rpc(&wire.Msg{Type: wire.Tclunk, Tag: 2, Fid: fidno}, W); err != nil || r.Msg == nil || r.Msg.Type != wire.Rclunk {
+			fail("clunk", fmt.Sprintf("the fid bound in the race cannot be clunked: %v", r), round)
+		}
+		if round < 64 {
+			res.Sig("race|" + kinds)
+		}
+	}
+	shown := map[int64]bool{}
+	for _, ev := range s.Log.Snapshot(0) {
+		if ev.Kind == "op" {
+			for _, t := range []int64{ev.Fid, ev.Newfid} {
+				if t != 0 {
+					shown[t] = true
+				}
+			}
+		}
+	}
+	c.Hangup()
+	s.Ctl.WaitPassed("close.exit", c.ID, sched.AnyTag, 1, W)
+	counts := map[int64]int{}
+	for _, ev := range s.Log.Snapshot(0) {
+		if ev.Kind == "destroy" {
+			counts[ev.Fid]++
+		}
+	}
+	bad := 0
+	for t := range shown {
+		if counts[t] != 1 {
+			bad++
+		}
+	}
+	if bad > 0 {
+		fail("destroy-count", fmt.Sprintf("%d of %d fid objects shown to the implementation were not reported destroyed exactly once", bad, len(shown)), -1)
+	}
+	res.Count("same_number_race_rounds", int64(rounds))
+	res.Sample(map[string]interface{}{"scenario": "8 simultaneous requests binding one unused fid number", "rounds": rounds, "objects_shown": len(shown), "dotu": dotu})
+	return res
+}
+
+// runRefusedVersion: a Tversion the server refuses (msize below IOHDRSZ) changes nothing: the count limit of the
+// session stays msize-IOHDRSZ of the size negotiated before, for reads and writes at every boundary of the statement.
+func runRefusedVersion(dotu bool) core.Result {
+	var res core.Result
+	ver := "9P2000"
+	if dotu {
+		ver = "9P2000.u"
+	}
+	for _, first := range []uint32{256, 8192} {
+		for _, small := range []uint32{0, 1, 7, 22, 23} {
+			h := NewHist(Config{Dotu: dotu, Msize: 8192}, 1, &res, "C05")
+			if !h.Negotiate(first) {
+				return res
+			}
+			h.Do(attachStep(0, wire.NOFID, dotu, uidFor(dotu, 1001), planFile()))
+			h.Do(&Step{Msg: &wire.Msg{Type: wire.Topen, Fid: 0, Mode: 2}})
+			rep, err := h.Conns[0].Version(small, ver, W)
+			if err != nil || rep == nil || rep.Msg == nil || rep.Msg.Type != wire.Rerror {
+				// not the refusal this case is about (the session was renegotiated or lost): nothing to judge here
+				res.Count("refused_version_not_refused", 1)
+				h.Fatal = true
+				h.Finish()
+				continue
+			}
+			L := h.Tabs[0].Msize - wire.IOHDRSZ
+			for _, n := range []uint32{0, L - 1, L, L + 1, 1 << 31, 0xFFFFFFE8, 0xFFFFFFFF} {
+				h.Do(&Step{Msg: &wire.Msg{Type: wire.Tread, Fid: 0, Offset: 3, Count: n}})
+				res.Evals++
+			}
+			for _, n := range []int{0, int(L) - 1, int(L), int(L) + 1} {
+				h.Do(&Step{Msg: &wire.Msg{Type: wire.Twrite, Fid: 0, Offset: 5, Count: uint32(n), Data: data(n)}})
+				res.Evals++
+			}
+			res.Sig(fmt.Sprintf("refused-version|%v|%d|%d", dotu, first, small))
+			h.Finish()
+		}
+	}
+	res.Sample(map[string]interface{}{"scenario": "Tversion with msize below IOHDRSZ refused mid-session, then reads and writes at every count boundary", "dotu": dotu})
 	return res
 }
 
